@@ -3,9 +3,9 @@ import re
 CONFIG = dict(
     bin="c03",
     drv="drv_c03",
-    lean_modules=["MahfModel.Props.C03"],
-    namespaces=["MahfModel.Props.C03"],
-    shrink_lists=["blk", "script", "pre"],
+    lean_modules=["MahfModel.Props.C03", "MahfModel.Props.C03Real"],
+    namespaces=["MahfModel.Props.C03", "MahfModel.Props.C03Real"],
+    shrink_lists=["blk", "script", "pre", "logcfg"],
     level="proof",
     rule=("configuration trees over {leaf, block, while, if, if/else, scope, hooked scope} with scripted leaves, conditions "
           "and Scope::new_with hooks: "
@@ -23,19 +23,47 @@ CONFIG = dict(
           "Configuration::from / into_inner) with a dyn-clone of the tree being run (site */alt), and run through "
           "Configuration::optimize_with (site */opt; the final state is compared on Ok only, because Err drops it). "
           "Leaf actions include init-phase writes to and requirements on Iterations; caller states have 1-3 scopes, "
-          "with Iterations at the top, in a lower scope only, or absent. A case is non-trivial if the tree has a "
+          "with Iterations at the top, in a lower scope only, or absent. "
+          "(4) `(rtree ...)` cases - trees whose loop / branch conditions are the SHIPPED conditions and whose leaves hold caller "
+          "state: (real-bound) every condition of a list covering LessThanN::iterations(n) and LessThanN::evaluations(n) for "
+          "n = 0..3, EveryN::iterations(n) for n = 0..3, RandomChance 0 / 1, empty / unary / binary And / Or, Not, and mixes with "
+          "scripted conditions, x 7 loop positions (top level, inside a scope, inside a counting loop sharing the counter, inside "
+          "a scope inside a loop, inside a branch, as the root node, with an empty body) resp. 4 branch positions x 4 caller "
+          "states (Iterations / Evaluations present at the top, in a lower scope, absent), fault-free and with single faults; "
+          "(hold) a HoldLeaf (execute works on K1..K3 inside State::holding, changes the held value, performs further actions, "
+          "then fails if scripted) or the real Logger (holds the caller's LogConfig while it initialises / evaluates triggers "
+          "that are scripted and may fail, or shipped and may miss their source) inside 0..3 nested scopes with local state, "
+          "plain / in a counting loop / in a branch / in a loop in a scope, the held state owned by the caller at its top or a "
+          "lower level or shadowed, x every single fault point of the trace (so: the closure failing at every depth, the "
+          "trigger failing in init and in evaluate); (real-exh) every tree shape with <= 4 (5) nodes rendered with shipped "
+          "conditions, HoldLeafs and Loggers; (real-rand) seeded random trees of 8-50 nodes of the same kind. After the run "
+          "EVERY state type at EVERY level of the caller's state is printed (Iterations, K1..K3, Evaluations, presence of the two "
+          "Progress states, LogConfig, number of Log steps, Random) and compared. "
+          "A case is non-trivial if the tree has a "
           "control-flow node (while/if/scope) and at least two leaves or a fault; distinct = distinct canonical input."),
     nontrivial=lambda inp: re.search(r"\((while|if|ifelse|scope|scopew) ", inp) is not None
-                           and (inp.count("(leaf ") >= 2 or "(fail " in inp),
+                           and (inp.count("(leaf ") + inp.count("(hold ") + inp.count("(logger)") >= 2 or "(fail " in inp),
     trusted_base=[
         "leaves, conditions and the two hook functions of Scope::new_with are the harness's scripted TraceLeaf / ScriptCond / "
         "state_init::<SLOT> / states_merge::<SLOT> (the control-flow components, ConfigurationBuilder, Configuration::run / "
         "optimize_with, And/Or/Not and their operators, State::with_inner_state and StateRegistry are the real code)",
-        "HashMap / TypeId keyed registry represented as an association list per scope",
+        "in (rtree ...) cases the conditions LessThanN / EveryN / RandomChance / And / Or / Not, State::holding and Logger / "
+        "LogConfig are the real code as well; the harness's HoldLeaf is a leaf whose execute runs inside state.holding::<K>",
+        "HashMap / TypeId keyed registry represented as an association list per scope; the Marker<T> that State::holding leaves "
+        "in the owning registry is represented by the remembered level of that registry (the marker type is private to the "
+        "function, so a marker left behind cannot be observed by the harness either)",
+        "of the two Progress<L> states only the level they live at is compared, not their value (C10's subject; 0/0 for a bound "
+        "of 0 is NaN in the code)",
         "eyre error values abstracted to (which leaf or hook, which phase) / missing loop counter; the harness finds the "
         "scripted error anywhere in the error's cause chain, so added context (wrap_err) is not a deviation"],
     assumptions=["SplitMix64-seeded generator", "every generated loop condition is false once its script is exhausted "
-                 "(checked on both sides; otherwise the case is reported as illformed and not run)"],
+                 "(checked on both sides; otherwise the case is reported as illformed and not run)",
+                 "(rtree ...) cases: every loop condition passes a syntactic stop check (a conjunction containing / a disjunction "
+                 "of LessThanN::iterations, EveryN 0, RandomChance 0, scripted conditions) and no leaf writes Iterations, so "
+                 "every loop stops; a Random and (with a LogConfig) a Log are in the caller's state, so RandomChance and the "
+                 "Logger's push do not panic; a pass budget (20000 calls of the crate's --cfg mahf_verif observer hook, which is "
+                 "called around every block child and every loop pass; no generated case needs 1000) turns a loop that never stops "
+                 "into a `panic` outcome"],
 )
 CONFIG.update(
     level_text=("Lean 4 theorems (all trees, scripts, pass bounds, caller states) over a method-by-method model of Configuration::run, "
@@ -58,6 +86,15 @@ CONFIG.update(
                 "caller finds under every key after the merge), hooked_scope_locals_gone and hooked_shadow_restored (unless exported); "
                 "every all-trees theorem above (structured program, lifecycle, first_error_stops, fault_is_returned, scope_discipline, "
                 "loop_*) covers trees with hooked scopes, the side-condition theorems cover them when nested merge hooks export nothing. "
+                "Props/C03Real (Model/ConfigReal: the same components over the shipped conditions LessThanN / EveryN / RandomChance 0|1 / "
+                "And / Or / Not, State::holding, HoldLeaf and Logger): real_run_is_structured_program; lessThanN_evaluate (every bound, "
+                "0 included: value < n, forgiving progress write, the missing lens source is the only error); "
+                "shipped_condition_never_fails (any composite of shipped conditions with its sources in the state evaluates to the value "
+                "it denotes, no event, nothing but Progress written); while_false_at_once_is_skipped (any condition: zero passes, Ok, "
+                "the rest of the block runs); zero_bound_loop_is_skipped; counting_loop_passes (n - i passes, n - i + 1 tests, counter "
+                "max i n); hold_leaf_restores_owner (closure result returned, depth kept, the held state back in the scope it was taken "
+                "from with the closure's value, on Ok and Err) and hold_leaf_missing; real_scope_discipline; caller_scopes_kept_real "
+                "(scope by scope nothing is removed that no leaf removes - held states and the LogConfig included - on every outcome). "
                 "The model is tied to /repo by building real "
                 "component trees with the real builder/constructors, reading the built tree back through the code's own Serialize, "
                 "running Configuration::run (or optimize_with) and diffing trace, result, scope depth and registry dump against the compiled model (K) "
@@ -73,5 +110,11 @@ CONFIG.update(
                 "run_is_structured_program is a change of presentation (the program is compiled from the same tree), not an independent "
                 "oracle, so O coincides with K by that theorem. shadow_restored needs 'no set/remove of k in the body' or a shadow "
                 "established by init: a set_value executed before the shadowing insert reaches the caller by design. Agreement with the code is checked on the generated "
-                "cases only."),
+                "cases only. Model/ConfigReal is a second model of the same control-flow components (not an extension of Model/Config): "
+                "lifecycle / first_error_stops / fault_is_returned are proved for Model/Config only; for (rtree ...) cases they are checked "
+                "case by case through the structured program (O). State::holding's marker is modelled as the remembered owner level "
+                "(so hold_leaf_restores_owner states what the model does; that the code does the same is the tie). RandomChance only with "
+                "p in {0, 1} (other p are C10's); PopulationEvaluator's holding closure cannot return Err (Evaluate::evaluate has no "
+                "Result) and is not part of these cases; the Logger's entries (what is logged) are C15's, only the number of steps is "
+                "compared here. A panic inside a holding closure is outside the property."),
 )
